@@ -189,6 +189,7 @@ structure Rec where
   ancEntered : Bool := false
   liveExit : Bool := false      -- its own context was not cancelled when it left
   tainted : Bool := false       -- something else may have cancelled its context before its exit was processed
+  rejected : String := ""       -- names of the latest RunGroup / Run batch of this instance that the supervisor refused
 deriving Repr
 
 structure St where
@@ -345,7 +346,10 @@ def specEv (st : St) (kind : String) (iid : Nat) (dn : DN) (t : Nat) (fs : List 
     let recs := st.recs.map fun r => if properPrefix dn r.dn then { r with ancEntered := true } else r
     { st with recs := { iid := iid, dn := dn } :: recs, groups := st.groups.filter (fun g => g.1 ≠ dn) }
   | "run" =>
-    if (kv fs "res") == some "ok" then { st with groups := st.groups ++ [(dn, parseNames ((kv fs "names").getD "-"))] } else st
+    -- a refused batch (`res=err`) starts nothing and forms no group: the caller goes on (or fails) like any other service
+    if (kv fs "res") == some "ok" then { st with groups := st.groups ++ [(dn, parseNames ((kv fs "names").getD "-"))] }
+    else if (kv fs "res") == some "err" then updRec st iid fun r => { r with rejected := (kv fs "names").getD "-" }
+    else st
   | "sig" =>
     if (kv fs "res") == some "ok" && kvNat fs "s" == some 1 then updRec st iid fun r => { r with sigDone := true } else st
   | "ctxdone" =>
@@ -379,7 +383,18 @@ def specEv (st : St) (kind : String) (iid : Nat) (dn : DN) (t : Nat) (fs : List 
   | "settled" =>
     let st := { st with settled := true }
     if (kv fs "ok") != some "1" then
-      setV st s!"spec {id} not-restarted the services did not come back to their running configuration within the deadline: {(kv fs "why").getD "?"} (scenario {st.name})"
+      -- text only: which services are gone (latest instance left, not a completion, no ancestor gone as well), and
+      -- whether a RunGroup / Run call of theirs (or of a service below them) had been refused
+      let isLatest (r : Rec) : Bool := (latest st r.dn).map (·.iid) == some r.iid
+      let gone (r : Rec) : Bool := r.exited && isLatest r && !(r.sigDone && r.how = "nil")
+      let top := (st.recs.filter fun r => gone r && !(st.recs.any fun a => properPrefix a.dn r.dn && gone a)).reverse
+      let describe (r : Rec) : String :=
+        let rej := match st.recs.find? (fun x => x.rejected ≠ "" && isPrefix r.dn x.dn && isLatest x) with
+          | some x => s!", after a RunGroup call of {showDN x.dn} had been refused (names={x.rejected})"
+          | none => ""
+        s!"{showDN r.dn} (instance {r.iid}) left with how={r.how} at {r.tExit}us{rej} and had not been started again {(t - r.tExit) / 1000} ms later while the supervisor context was live"
+      let detail := if top.isEmpty then "" else "; " ++ "; ".intercalate (top.map describe)
+      setV st s!"spec {id} not-restarted the services did not come back to their running configuration within the deadline: {(kv fs "why").getD "?"} (scenario {st.name}){detail}"
     else match st.oblig with
       | (i, who) :: _ =>
         let d := match st.recs.find? (fun r => r.iid = i) with | some r => showDN r.dn | none => "?"
